@@ -1,12 +1,12 @@
 SPECIFICATION Spec
 CONSTANTS Coef <- C3
- Pairs <- P2
+ Pairs <- P4
  SumPairs <- SP3
  Bnd <- B2
  MaxD = 3
  MaxSteps = 3
  SubA <- A3
- SubB <- S1
+ SubB <- S2
 INVARIANT SameValueInv
 INVARIANT SameValueOp
 INVARIANT TwoEvaluators
